@@ -143,6 +143,19 @@ def run(prop, tier, seed, only=None):
 def replay_file(path):
     with open(path) as f:
         body = json.load(f)
+    if body.get("fn"):
+        from vx import static_checks as sc
+
+        r = getattr(sc, body["fn"])(body["case"])
+        want = (body["kind"], json.dumps(body.get("sig", {}), sort_keys=True, default=repr))
+        got = [(v["kind"], json.dumps(v.get("sig", {}), sort_keys=True, default=repr)) for v in r.get("violations", [])]
+        for g in got:
+            print("  %s %s" % g)
+        if want in got:
+            print("VIOLATION property=%s replay=%s" % (body["property"], path))
+            return 1
+        print("violation not reproduced")
+        return 0
     scn = Scenario.from_json(body["scenario"])
     cfg = ex.Config(**(body.get("cfg") or {}))
     mons = [runner.resolve(n) for n in body.get("monitors") or []]
@@ -386,3 +399,137 @@ def c13(tier, seed, only=None):
 
 
 REGISTRY.update({"C11": c11, "C12": c12, "C13": c13})
+
+
+# ------------------------------------------------------------------ C17
+def c17(tier, seed, only=None):
+    t0 = time.time()
+    mons = ["vx.monitors.rerun.RerunConverges"]
+    jobs = []
+    ok_only = [["succeeded", None]]
+    for s in gen.f2_all(tier) + gen.f4_all(tier) + gen.f5_all(tier):
+        cfg = dict(rerun=1, rerun_mode="all" if tier != "quick" else "tasks", rerun_outcomes=ok_only, horizon=70)
+        if gen.is_big(s):
+            cfg["dev"] = 3 if tier == "quick" else 5
+        jobs.append(job(s, cfg, mons))
+        if tier != "quick":
+            cfg2 = dict(cfg)
+            cfg2["rerun_outcomes"] = None
+            cfg2["rerun"] = 2
+            cfg2["dev"] = 4
+            jobs.append(job(s, cfg2, mons))
+    jobs = _filter(jobs, only)
+    results = runner.run_jobs(jobs, seed=seed)
+    rule = (
+        "every completed history of F2/F4/F5 (task failure, item failure, fail command, unreachable join, "
+        "success) x every admissible request (default; each existing execution; reset_items; pairs in "
+        "thorough) x every continuation in which re-executed actions succeed (thorough: fail again, second "
+        "rerun); token-game reference extended with the requested executions decides which offers are "
+        "justified; inadmissible requests probed in every state; clean-twin comparison at the end"
+    )
+    return runner.finish("C17", tier, seed, MC, results, rule, t0, mons)
+
+
+REGISTRY.update({"C17": c17})
+
+
+# ------------------------------------------------------------------ C14 / C15 / C16
+from vx import static_checks as sc  # noqa: E402
+
+
+def _all_defs(tier, f1_tasks=2):
+    defs = []
+    for s in gen.f2_all(tier) + gen.f4_all(tier) + gen.f5_all(tier) + gen.f6_publish(tier) + gen.f3_all():
+        defs.append({"name": s.name, "wf": s.wf})
+    for s in gen.f1_all(f1_tasks):
+        defs.append({"name": s.name, "wf": s.wf})
+    return defs
+
+
+def c14(tier, seed, only=None):
+    t0 = time.time()
+    cases = _all_defs(tier)
+    cases += [{"name": n, "wf": wf} for n, wf in gen.graph_shapes(tier)]
+    if only:
+        cases = [c for c in cases if only in c["name"]]
+    res = sc.run_cases("check_c14", cases, seed=seed)
+    nodes = sum(r.get("nodes", 0) for r in res)
+    edges = sum(r.get("edges", 0) for r in res)
+    rule = (
+        "every accepted definition of F1 (2-task micro grammar, complete), F2, F3 fixtures, F4, F5, F6 and "
+        "generated fan-out/fan-in/split/parallel-edge/cycle shapes: compose() compared with an independent "
+        "dictionary-based reference builder (nodes, edge multiset with key/criteria/ref, barrier and retry "
+        "attributes, roots); all (<=4 tasks) or 4 permutations of declaration order; serialise/restore "
+        "round trip with edge identities; distinct = distinct definitions accepted by inspection"
+    )
+    samples = [{"definition": cases[0]["wf"]}, {"definition": cases[len(cases) // 2]["wf"]}]
+    return runner.finish_static("C14", tier, seed, MC, [("check_c14", res)], rule, t0, samples,
+                                extra_cov={"programs": len(cases), "nodes_compared": nodes, "edges_compared": edges})
+
+
+def c15(tier, seed, only=None):
+    t0 = time.time()
+    mons = [B + "NoInternalError"]
+    jobs = []
+    for s in gen.f2_all(tier) + gen.f4_all(tier) + gen.f5_all(tier):
+        cfg = dict(horizon=60, pause=1, resume=1, cancel=1, rerun=1, rerun_mode="tasks", dev=2 if tier == "quick" else 4)
+        jobs.append(job(s, cfg, mons))
+    for s in gen.f1_all(2):
+        jobs.append(job(s, dict(horizon=40), mons))
+    jobs = _filter(jobs, only)
+    results = runner.run_jobs(jobs, seed=seed)
+    # completeness half: single-fault mutants
+    bases = [{"name": s.name, "wf": s.wf} for s in gen.f2_all(tier) + gen.f6_publish(tier)]
+    if tier != "quick":
+        bases += [{"name": s.name, "wf": s.wf} for s in gen.f3_all()]
+    if only:
+        bases = [c for c in bases if only in c["name"]]
+    mres = sc.run_cases("check_c15_mutants", bases, seed=seed)
+    mutants = sum(r.get("mutants", 0) for r in mres)
+    classes = {}
+    extra_v = []
+    for r in mres:
+        for k, n in (r.get("classes") or {}).items():
+            classes[k] = classes.get(k, 0) + n
+        for v in r.get("violations", []):
+            v["fn"] = "check_c15_one"
+            v["scenario"] = {"name": v["case"]["name"], "wf": v["case"]["wf"], "case": v["case"]}
+            v["history"] = []
+            v["confirmed"] = True
+            extra_v.append(v)
+    rule = (
+        "soundness: exception monitor over explorations of every accepted F1/F2/F4/F5 definition "
+        "(dispatch/complete x outcomes, pause/resume/cancel/rerun, deviation-bounded); completeness: every "
+        "single-fault mutant (undefined target, reserved task name, no start task, broken YAQL/Jinja grammar "
+        "and unassigned ctx variable in 7 documented forms at every action/input/when/publish/vars/output "
+        "site) of every F2/F6 base must be reported by inspect() at the site"
+    )
+    return runner.finish("C15", tier, seed, MC, results, rule, t0, mons,
+                         extra_cov={"single_fault_mutants": mutants, "mutants_by_class": classes},
+                         extra_violations=extra_v)
+
+
+def c16(tier, seed, only=None):
+    t0 = time.time()
+    vals = sc.value_grammar(2 if tier != "quick" else 2)
+    cases = []
+    for i, v in enumerate(vals):
+        for form in sc.REF_FORMS:
+            for persist in (False, True):
+                cases.append({"name": "v%d-%s-%s" % (i, form, persist), "value": v, "form": form, "persist": persist})
+    ecases = [{"name": "e%d" % i, "value": v, "hidden": i == 0} for i, v in enumerate(vals)]
+    res = sc.run_cases("check_c16", cases, seed=seed)
+    eres = sc.run_cases("check_c16_expr", ecases, seed=seed)
+    rule = (
+        "JSON value grammar to depth 2 over %d atoms (%d values) x 5 reference forms x {no persistence, "
+        "serialise->JSON text->deserialise between all steps}: each value is pushed through input -> ctx -> vars "
+        "-> action input -> result -> publish -> ctx -> item -> output on the real conductor and compared "
+        "structurally incl. type; expression level: 12 single-expression forms + literal, context deep-equal "
+        "before/after evaluation, double-underscore names unreadable" % (len(sc.ATOMS), len(vals))
+    )
+    samples = [{"value": repr(vals[3]), "form": "yaql_ctx_name"}, {"value": repr(vals[-1]), "form": "jinja_ctx_attr"}]
+    return runner.finish_static("C16", tier, seed, "exploration", [("check_c16", res), ("check_c16_expr", eres)],
+                                rule, t0, samples, extra_cov={"values": len(vals)})
+
+
+REGISTRY.update({"C14": c14, "C15": c15, "C16": c16})
